@@ -92,7 +92,7 @@ fn get_players<Client: QuakeClient>(bufferer: &mut Buffer<LittleEndian>) -> GDRe
     // Some servers end the packet with a null byte after the last player line
     while bufferer.remaining_length() != 0 && bufferer.remaining_bytes() != [0x00] {
         let data = bufferer.read_string::<Utf8Decoder>(Some([0x0A]))?;
-        let data_split = data.split(' ').collect::<Vec<&str>>();
+        let data_split = split_player_line(&data);
         let data_iter = data_split.iter();
 
         players.push(Client::parse_player_string(data_iter)?);
@@ -135,8 +135,29 @@ pub fn client_query<Client: QuakeClient>(
     })
 }
 
+/// Split a player line on spaces, keeping quoted fields (which can contain
+/// spaces) together.
+fn split_player_line(line: &str) -> Vec<&str> {
+    let mut fields = Vec::new();
+    let mut start = 0;
+    let mut in_quotes = false;
+    for (index, character) in line.char_indices() {
+        match character {
+            '\"' => in_quotes = !in_quotes,
+            ' ' if !in_quotes => {
+                fields.push(&line[start .. index]);
+                start = index + 1;
+            }
+            _ => (),
+        }
+    }
+    fields.push(&line[start ..]);
+
+    fields
+}
+
 pub fn remove_wrapping_quotes<'a>(string: &&'a str) -> &'a str {
-    match string.starts_with('\"') && string.ends_with('\"') {
+    match string.len() >= 2 && string.starts_with('\"') && string.ends_with('\"') {
         false => string,
         true => &string[1 .. string.len() - 1],
     }
